@@ -158,6 +158,34 @@ def run(ctx, variants=(("verif", "c04"), ("verif,unsafe", "c04u"))):
                     b[e:e + 4] = struct.pack(">i", 0x7fffffff - lvl * 0x04000000)
                 cases.append("%s %s %s" % (f[0], f[1], bytes(b).hex()))
                 nly += 1
+        # (a3'') … and with MORE than the first chunk actually delivered (read: 64 KiB, decodeElems: 1024 elements): the lying field
+        #        announces 256 MiB, the peer sends 66 560 / 204 800 bytes of it and stops.  The buffer must have grown with what
+        #        arrived (Props/C20 read_/array_allocations_follow_data: each allocation <= 2 x received), not to the announced size
+        nbig = 0
+        names = codec.schema_names()
+        bigmsgs = ("syncgroup_Response", "saslauthenticate_Response", "metadata_Response", "createacls_Response", "describegroups_Response", "joingroup_Response")
+        pick = [p for p in parsed if p[0][0].isdigit() and int(p[0][0]) < len(names) and names[int(p[0][0])] in bigmsgs]
+        seenb = set()
+        if ctx.tier != "thorough":      # quick: lowest and highest version of each picked message
+            vers = {}
+            for p in pick:
+                vers.setdefault(p[0][0], []).append(int(p[0][1]))
+            pick = [p for p in pick if int(p[0][1]) in (min(vers[p[0][0]]), max(vers[p[0][0]]))]
+            pick = list({(p[0][0], p[0][1]): p for p in pick}.values())
+        for f, raw, fields in pick:
+            top = [x for x in fields if x["kind"] in ("i32", "uv") and x["off"] >= 8 and not x["crc"] and len(x["encl"]) == 1]
+            for x in top[-1:] + top[:1]:
+                key = (f[0], f[1], x["off"])
+                if key in seenb: continue
+                seenb.add(key)
+                o = x["off"]
+                huge = bytes.fromhex("10000000") if x["kind"] == "i32" else codec.enc_uv(0x10000001)
+                for delivered in ((66560, 204800) if ctx.tier == "thorough" or nbig < 4 else (66560,)):
+                    b = bytearray(raw[:o]) + huge + bytes((i * 7 + 1) & 0x7f for i in range(delivered))
+                    b[0:4] = bytes.fromhex("7fffffff")
+                    cases.append("%s %s %s" % (f[0], f[1], bytes(b).hex()))
+                    nbig += 1
+        ctx.coverage["lying_length_with_first_chunk_delivered_cases"] = ctx.coverage.get("lying_length_with_first_chunk_delivered_cases", 0) + nbig
         ctx.coverage["lying_size_and_length_cases"] = ctx.coverage.get("lying_size_and_length_cases", 0) + nly
         # (b) extra: blind overwrites at random offsets
         gen, rc, err = ctx.run_driver(drv, ["-malgen"])
@@ -196,7 +224,9 @@ def run(ctx, variants=(("verif", "c04"), ("verif,unsafe", "c04u"))):
     concrete = [d for d in dis if d.get("kind") == "disagreement" and not d["holds_on_impl"]]
     others = [d for d in dis if d not in concrete]
     recorded = 0
-    for d in concrete[:60]:
+    for d in concrete:
+        if recorded >= 60:          # (disagreements that match a known finding do not count against the cap)
+            break
         op = d["op"]
         p = op.split(" ")
         sig = "mal %s %s => %s" % (p[1], p[2], d["impl"])
